@@ -428,7 +428,7 @@ impl From<proto::Value> for broker::DataValue {
             Some(proto::value::TypedValue::DoubleArray(array)) => {
                 broker::DataValue::DoubleArray(array.values.clone())
             }
-            None => todo!(),
+            None => broker::DataValue::NotAvailable,
         }
     }
 }
